@@ -410,7 +410,7 @@ impl WindowedStream {
         match config.window_type {
             WindowType::Tumbling => {
                 // Calculate window boundaries
-                let window_ms = config.duration.as_millis() as u64;
+                let window_ms = u64::try_from(config.duration.as_millis()).unwrap_or(u64::MAX);
                 let mut window_map: HashMap<u64, Vec<StreamEvent>> = HashMap::new();
 
                 for event in events {
@@ -437,7 +437,7 @@ impl WindowedStream {
             WindowType::Sliding | WindowType::Session { .. } => {
                 // For sliding windows, create overlapping windows
                 // Simplified implementation: create one window per unique timestamp
-                let window_ms = config.duration.as_millis() as u64;
+                let window_ms = u64::try_from(config.duration.as_millis()).unwrap_or(u64::MAX);
 
                 if !events.is_empty() {
                     let min_time = events.iter().map(|e| e.metadata.timestamp).min().unwrap();
